@@ -264,6 +264,42 @@ def gen_history(rng, quick, with_legacy):
     return {"mode": "history", "ops": ops, "final_settings": rng.choice([None, None, {"verify": {"verify_trust": False}}]), "legacy": with_legacy}
 
 
+def trust_family():
+    """Contexts that differ from a base in exactly one trust setting (the base trusts the es256 test chain only, so an asset
+    signed with the ed25519 test certificate is acceptable only through the allowed list / user anchors)"""
+    certs = os.path.join(common.REPO, "sdk", "tests", "fixtures", "certs")
+    es256 = open(os.path.join(certs, "es256.pub")).read()
+    ed = open(os.path.join(certs, "ed25519.pub")).read()
+    ps = open(os.path.join(certs, "ps256.pub")).read()
+    base = {"trust": {"trust_anchors": es256}}
+    fam = {"base": base,
+           "allowed_list": {"trust": {"trust_anchors": es256, "allowed_list": ed}},
+           "allowed_list_other": {"trust": {"trust_anchors": es256, "allowed_list": ps}},
+           "user_anchors": {"trust": {"trust_anchors": es256, "user_anchors": ed}},
+           "trust_config": {"trust": {"trust_anchors": es256, "trust_config": "1.3.6.1.5.5.7.3.36"}},
+           "verify_trust": {"trust": {"trust_anchors": es256}, "verify": {"verify_trust": False}},
+           "anchors_all": None}
+    return fam
+
+
+def gen_trust_history(rng, quick):
+    """the same asset read under Contexts that differ in one trust setting, in a seeded order with repeats"""
+    fam = trust_family()
+    names = list(fam)
+    good = {"title": "trust", "claim_generator_info": [{"name": "verif-harness", "version": "0.1"}],
+            "assertions": [{"label": "c2pa.actions", "data": {"actions": [{"action": "c2pa.created", "digitalSourceType": c40.DST}]}}]}
+    ops = [{"op": "sign", "fixture": "earth_apollo17.jpg", "format": "image/jpeg", "alg": "ed25519", "def": good, "settings": None}]
+    order = ["base"] + [rng.choice(names) for _ in range(5 if quick else 9)]
+    # every single-setting variant is preceded and followed by the base somewhere
+    v = rng.choice(names[1:6])
+    order += [v, "base", v]
+    rng.shuffle(order)
+    for n in order:
+        src = {"slot": 0} if rng.random() < 0.8 else {"fixture": "CA.jpg", "format": "image/jpeg"}
+        ops.append({"op": "read", "src": src, "settings": fam[n], "variant": n})
+    return {"mode": "history", "ops": ops, "final_settings": fam[rng.choice(names)], "legacy": False, "trust": True}
+
+
 def corpus():
     p = os.path.join(common.VERIF, "corpus", "C38.jsonl")
     if not os.path.exists(p):
@@ -310,6 +346,11 @@ def evaluate(ctx, cases):
             if a["first"] != a["final"]:
                 ctx.report_violation(c, f"asset {a['slot']} read twice in one process gives different reports: {c40.first_diff(a['first'], a['final'])}")
             pending.append((c, a, fresh_read(a["path"], a["format"], c.get("final_settings"))))
+        for rd in r.get("reads", []):
+            # ---- oracle 1b: a read inside the history (any Context) equals the same read in a fresh process
+            stats["history_reads"] = stats.get("history_reads", 0) + 1
+            distinct.add((c["id"], rd["path"]))
+            pending.append((c, {"slot": rd["path"].rsplit("/", 1)[-1], "final": rd["report"]}, fresh_read(rd["path"], rd["format"], rd["settings"])))
         rs = r.get("resign")
         if rs:
             stats["resign_checks"] += 1
@@ -333,7 +374,7 @@ def drain(ctx, pending, stats):
         stats["fresh_reads"] += 1
         # ---- oracle 2: the read at the end of the history equals the read in a fresh process
         if fr.get("json") != a["final"]:
-            ctx.report_violation(c, f"asset {a['slot']}: report after the history differs from the report of a fresh process: "
+            ctx.report_violation(c, f"{a['slot']}: report inside / after the history differs from the report of a fresh process with the same settings: "
                                     f"{c40.first_diff(fr.get('json'), a['final'])}")
     pending.clear()
 
@@ -345,18 +386,20 @@ def run(ctx):
         cases = [ctx.replay["case"]] if "case" in ctx.replay and "ops" in ctx.replay["case"] else []
     else:
         cases = corpus()
-        n = 8 if ctx.quick() else 60
+        n = 6 if ctx.quick() else 60
         cases += [gen_history(ctx.rng, ctx.quick(), with_legacy=(i % 3 == 2)) for i in range(n)]
+        cases += [gen_trust_history(ctx.rng, ctx.quick()) for _ in range(3 if ctx.quick() else 20)]
     for i, c in enumerate(cases):
         c["id"] = i
     stats, distinct = evaluate(ctx, cases) if cases else ({}, 0)
     f = getattr(ctx, "facts", None) or {}
     ctx.coverage.update({
-        "evaluations": stats.get("assets", 0) + stats.get("fresh_reads", 0) + stats.get("resign_checks", 0) + sum(stats.get("ops", {}).values()),
+        "evaluations": stats.get("assets", 0) + stats.get("fresh_reads", 0) + stats.get("history_reads", 0) + stats.get("resign_checks", 0) + sum(stats.get("ops", {}).values()),
         "distinct_nontrivial": distinct,
         "rule": "a case is a seeded history of 4..13 operations (sign / ingredient / archive / read, one third of the histories also call the deprecated "
                 "thread-local Settings::from_string) run in one process; evaluations = operations + end-of-history re-reads + fresh-process reads + "
-                "repeated first signings; non-trivial = an asset was produced and re-read; distinct by (history, asset)",
+                "repeated first signings; plus histories that read one asset under Contexts differing in exactly one trust setting (allowed_list, user_anchors, "
+                "trust_config, verify_trust), every read of every history being repeated in a fresh process; non-trivial = an asset was produced and re-read, or a read was repeated; distinct by (history, asset or read)",
         "distribution": stats,
         "cells": [f"{c['name']} [{c['kind']}] {c['file']}" for c in f.get("cells", [])], "const_statics": f.get("nconst"),
         "tls_closures": f.get("closures"),
@@ -366,7 +409,7 @@ def run(ctx):
 
 def search(ctx):
     common.build_harness()
-    cases = [gen_history(ctx.rng, True, with_legacy=(i % 2 == 0)) for i in range(12)]
+    cases = [gen_history(ctx.rng, True, with_legacy=(i % 2 == 0)) for i in range(8)] + [gen_trust_history(ctx.rng, True) for _ in range(6)]
     for i, c in enumerate(cases):
         c["id"] = i
     stats, distinct = evaluate(ctx, cases)
